@@ -18,6 +18,7 @@ mod pats;
 mod rng;
 mod run;
 mod shrink;
+mod simbin;
 mod simenv;
 mod world;
 
